@@ -12,6 +12,21 @@ def toComposition (cd : CompoundData) : Composition :=
   { elements := cd.elements, nAtoms := cd.nAtoms, massFractions := cd.massFractions.map (·.getD 0),
     nAtomsAll := cd.nAtomsAll, molarMass := cd.molarMass }
 
+/-- lines 346-362 -/
+def mkCD (T : Tables) (ca : Atoms) : CompoundData :=
+  let sum := ca.foldl (fun acc e => acc + atomicWeight T e.1 * e.2) 0
+  { elements := ca.map (·.1), nAtoms := ca.map (·.2),
+    massFractions := ca.map (fun e => cdiv (atomicWeight T e.1 * e.2) sum),
+    nAtomsAll := ca.foldl (fun acc e => acc + e.2) 0, molarMass := sum }
+
+theorem compoundParser_result_ok (T : Tables) (l : Locale) (s : List Char) {ca : Atoms} {k : Nat}
+    (h : parseSimple T (s.length + 1) s = .ok (ca, k)) : (compoundParser T l (some s)).result = .ok (mkCD T ca) := by
+  simp only [compoundParser, h, mkCD]
+
+theorem compoundParser_result_err (T : Tables) (l : Locale) (s : List Char) {f : Fail}
+    (h : parseSimple T (s.length + 1) s = .error f) : (compoundParser T l (some s)).result = .error f.err := by
+  simp only [compoundParser, h]
+
 theorem foldl_add_eq (h : Nat × Rat → Rat) (l : Atoms) (a : Rat) :
     l.foldl (fun acc e => acc + h e) a = a + sumL (l.map h) := by
   induction l generalizing a with
